@@ -70,7 +70,8 @@ def find_registrations(fn: ast.AST) -> List[Registration]:
                 and isinstance(n.func.value, ast.Name) and key_is_reference_spelling(n.args[0]):
             out.append(Registration(n, n.func.value.id, n.args[0], n.args[1]))
         if isinstance(n, ast.Assign) and len(n.targets) == 1 and isinstance(n.targets[0], ast.Subscript) \
-                and isinstance(n.targets[0].value, ast.Name) and key_is_reference_spelling(n.targets[0].slice):
+                and isinstance(n.targets[0].value, ast.Name) and key_is_reference_spelling(n.targets[0].slice) \
+                and not (isinstance(n.value, ast.Call) and call_name(n.value) in ("min", "max", "sorted")):   # an ownership table, not a plan
             out.append(Registration(n, n.targets[0].value.id, n.targets[0].slice, n.value))
     return out
 
@@ -179,8 +180,8 @@ def run(ctx) -> None:
     ctx.rule("C10.R3-only-substitutions-touch-arguments", "the argument string is assigned only from substitutions of declared "
                                                           "references, its initial read and the final variable fill-in")
     ctx.rule("C10.R4-one-spelling-per-reference", "the relative spelling (which carries no stage and can be shared by same-named "
-             "producers of different stages) is substituted only on paths where this reference's absolute spelling was not "
-             "found in the arguments")
+             "producers of different stages) is registered only for the reference that owns it - decided before the substitution "
+             "loop by a key of the reference alone - and also when the absolute spelling occurs in the same string")
     ctx.rule("C10.R5-verbatim-insertion", "the value is inserted verbatim: a regex substitution receives it through a callable (or "
              "with its backslashes escaped), never as a replacement *template* in which \\1, \\g<0>, \\n are interpreted")
     ctx.rule("C10.R6-no-rescan", "text inserted for one reference is never scanned for the other references: the string that is "
@@ -195,9 +196,15 @@ def run(ctx) -> None:
     ctx.analysed(fn)
     cfg = CFG(fn)
     ctx.paths += cfg.paths_count()
-    loops = [n for n in source.walk_own(fn) if isinstance(n, ast.For) and "dataReferences" in source.src(n.iter)]
+    def over_references(it: ast.AST) -> bool:
+        if "dataReferences" in source.src(it):
+            return True
+        return isinstance(it, ast.Name) and any("dataReferences" in source.src(v) for v in match.assigned_value(fn, it.id))
+    loops = [n for n in source.walk_own(fn) if isinstance(n, ast.For) and over_references(n.iter)]
     ctx.require(bool(loops), "anchor missing: loop over self.dataReferences in resolveArguments")
-    loop = loops[0]
+    # the substitution loop is the one that resolves the references (an ownership table may be filled by an earlier loop)
+    resolving = [lp for lp in loops if any(isinstance(c, ast.Call) and last_attr(c) == "resolve" for c in ast.walk(lp))]
+    loop = (resolving or loops)[0]
     loopvar = loop.target.id if isinstance(loop.target, ast.Name) else None
 
     regs = find_registrations(fn)
@@ -293,6 +300,30 @@ def run(ctx) -> None:
                "the replacement is not (provably) the value resolved from the reference whose spelling is replaced",
                construct=short(s.call, 120) + " <- own value")
 
+    # R2, freshness: the value that is registered was computed for THIS reference - every path from the start of a loop iteration
+    # to a registration (exception handlers included) assigns the value local; nothing is carried over from the previous reference
+    loop_nodes = [n for n in cfg.nodes if n.kind == "for" and n.ast is loop]
+    ctx.require(bool(loop_nodes), "cannot locate the CFG node of the loop over the references")
+    body_first = [m for (m, lab) in loop_nodes[0].succ if m.ast is not None and any(m.ast is x or any(m.ast is y for y in ast.walk(x)) for x in loop.body)]
+    for r in regs:
+        vnames = {x.id for x in ast.walk(r.value) if isinstance(x, ast.Name) and x.id in own_names}
+        rn = [n for n in cfg.nodes if n.ast is not None and n.kind in ("stmt", "test") and (n.ast is r.node or any(c is r.node for c in own_calls(n.ast)))]
+        if not vnames or not rn or not body_first:
+            continue
+        for vn in sorted(vnames):
+            defs = [n for n in cfg.nodes if n.kind == "stmt" and isinstance(n.ast, ast.Assign) and any(
+                isinstance(t, ast.Name) and t.id == vn for t in n.ast.targets) and any(n.ast is x for x in ast.walk(loop))
+                and vn not in source.names_in(n.ast.value)]     # 'x = x or ""' passes the old value on: not a fresh definition
+            # an assignment whose right-hand side raised did not happen: leave such a node through its exception edge unblocked
+            reach = cfg.reach(body_first, blocked=[], blocked_edges=[(d.id, lab) for d in defs for (m, lab) in d.succ if lab != "exc"])
+            ok = rn[0].id not in reach
+            ctx.ob("C10.R2-own-value", r.node, ok,
+                   "'%s' is assigned on every path of the iteration that reaches this registration" % vn if ok else
+                   "a path through the loop body reaches this registration without assigning '%s' (for instance through the handler of a "
+                   "failed resolve()): the value that is substituted for this reference is the one left over from the reference declared "
+                   "before it - and depends on the declaration order" % vn,
+                   construct=short(r.node, 90) + " <- %s assigned in this iteration" % vn)
+
     # ---------------- R5 -------------------------------------------------------------------------------
     def verbatim(e: ast.AST) -> bool:
         if isinstance(e, ast.Lambda):
@@ -334,9 +365,22 @@ def run(ctx) -> None:
         is_init = isinstance(v, ast.Call) and last_attr(v) == "get" and v.args and isinstance(v.args[0], ast.Constant) \
             and v.args[0].value == "arguments"
         is_fill = isinstance(v, ast.Call) and last_attr(v) == "fill_in"
-        ok = is_site or is_init or is_fill
+        ok = is_site or is_init
+        if is_fill:
+            # the variable fill-in is legitimate on the text the user wrote, but not on text that was inserted for a reference: it must
+            # not be reachable after a substitution site (the contents of an :output file would be scanned for %(variable)s)
+            fn_nodes = [x for x in cfg.nodes if x.kind == "stmt" and x.ast is n]
+            sub_nodes = [x for x in cfg.nodes if x.kind == "stmt" and isinstance(x.ast, ast.Assign) and any(x.ast.value is s_.call for s_ in sites)]
+            after = bool(fn_nodes) and bool(sub_nodes) and any(fn_nodes[0].id in cfg.reach([sn_], include_starts=False) for sn_ in sub_nodes)
+            ctx.ob("C10.R3-only-substitutions-touch-arguments", n, not after,
+                   "the variable fill-in runs on the text the user wrote, before any reference value is inserted" if not after else
+                   "after the references were substituted the whole string - inserted values included - passes through FlowIR.fill_in: the "
+                   "contents '100%(foo)s' of an :output file become '100bar' when the consumer has a variable foo=bar, i.e. the reference is "
+                   "not replaced by the contents of the referenced file",
+                   construct="%s <- not applied to inserted values" % short(n, 80))
+            continue
         ctx.ob("C10.R3-only-substitutions-touch-arguments", n, ok,
-               "arguments assigned from %s" % ("a reference substitution" if is_site else "its initial value" if is_init else "fill_in")
+               "arguments assigned from %s" % ("a reference substitution" if is_site else "its initial value")
                if ok else "the argument string is rewritten by something other than a reference substitution",
                trivial=not is_site)
         if is_site:
@@ -390,22 +434,67 @@ def run(ctx) -> None:
     rel_uses: List[ast.AST] = [r.node for r in regs if spelling_of(r.key) == "relative"]
     rel_uses += [s.call for s in legacy_sites if spelling_of(s.pattern if s.kind == "regex" else s.key) == "relative"]
     ctx.floor("C10.R4-one-spelling-per-reference", len(rel_uses), 2, "uses of the relative spelling (registrations / substitutions)")
-    absent = [(n, match.other(l)) for n, l in abs_tests]
+
+    # who owns a relative spelling: a table filled before the substitution loop, D[<ref>.relativeReference] = min(.., key=f(ref))
+    owner_tables = {}
+    for n in source.walk_own(fn):
+        if isinstance(n, ast.Assign) and len(n.targets) == 1 and isinstance(n.targets[0], ast.Subscript) and isinstance(n.targets[0].value, ast.Name) \
+                and spelling_of(n.targets[0].slice) == "relative" and isinstance(n.value, ast.Call) and call_name(n.value) in ("min", "max", "sorted"):
+            owner_tables[n.targets[0].value.id] = n
+    for tname, node in owner_tables.items():
+        key = next((k.value for k in node.value.keywords if k.arg == "key"), None)
+        ok = isinstance(key, ast.Lambda) and len(key.args.args) == 1
+        if ok:
+            prm = key.args.args[0].arg
+            loop_bound = {x.id for lp2 in source.walk_own(fn) if isinstance(lp2, ast.For) for x in ast.walk(lp2.target) if isinstance(x, ast.Name)}
+            used = {x.id for x in ast.walk(key.body) if isinstance(x, ast.Name)} - {prm}
+            ok = not (used & loop_bound) and not any(isinstance(c, ast.Call) and call_name(c) in ("enumerate", "id", "len") for c in ast.walk(key.body))
+        ctx.ob("C10.R4-one-spelling-per-reference", node, ok,
+               "the owner of a relative spelling is chosen by a key of the reference alone (its stage against the component's stage)" if ok else
+               "the owner of a relative spelling is chosen by something that depends on the position of the reference: the outcome depends on the "
+               "declaration order", construct=short(node, 100) + " <- order-independent choice")
+
+    def owns_label(t: ast.AST) -> Optional[str]:
+        """edge label on which THIS reference owns its relative spelling:  D[<ref>.relativeReference] is <ref>  (through locals)"""
+        t = match.resolve_local(fn, t) if isinstance(t, ast.Name) else t
+        neg = False
+        if isinstance(t, ast.Compare) and len(t.ops) == 1 and isinstance(t.comparators[0], ast.Constant) and isinstance(t.comparators[0].value, bool):
+            # owns_relative is False / is True
+            inner = owns_label(t.left)
+            if inner is None:
+                return None
+            same = isinstance(t.ops[0], (ast.Is, ast.Eq)) == t.comparators[0].value
+            return inner if same else match.other(inner)
+        cp = match.compare_parts(t)
+        if cp and isinstance(cp[1], (ast.Is, ast.IsNot, ast.Eq, ast.NotEq)):
+            for a, b in ((cp[0], cp[2]), (cp[2], cp[0])):
+                if isinstance(a, ast.Subscript) and isinstance(a.value, ast.Name) and a.value.id in owner_tables and spelling_of(a.slice) == "relative" \
+                        and isinstance(b, ast.Name) and b.id == loopvar:
+                    return "T" if isinstance(cp[1], (ast.Is, ast.Eq)) else "F"
+        return None
+    own_tests = match.test_nodes(cfg, owns_label)
     for u in rel_uses:
         nodes = [n for n in cfg.nodes if n.ast is not None and n.kind in ("stmt", "test")
                  and (n.ast is u or any(c is u for c in own_calls(n.ast)))]
         ctx.require(bool(nodes), "cannot locate the CFG node of %s" % short(u, 60))
-        ok = bool(abs_tests) and all(match.only_via_edges(cfg, n, absent) for n in nodes)
-        if not ok:
-            stage_tests = match.test_nodes(cfg, lambda t: "T" if (isinstance(t, ast.Compare) and "stageIndex" in source.src(t)
-                                                                   and isinstance(t.ops[0], ast.Eq)) else None)
-            ok = bool(stage_tests) and all(match.only_via_edges(cfg, n, stage_tests) for n in nodes)
+        ok = bool(owner_tables) and bool(own_tests) and all(match.only_via_edges(cfg, n, own_tests) for n in nodes)
         ctx.ob("C10.R4-one-spelling-per-reference", u, ok,
-               "the relative spelling is used only when this reference's absolute spelling does not occur in the arguments" if ok else
-               "the relative spelling is substituted also when the reference's absolute spelling was found: 'A:ref' is shared by "
-               "stage0.A and stage1.A, so with references [stage0.A:ref, stage1.A:ref] and arguments '-a stage0.A:ref -b A:ref' "
-               "the occurrence that belongs to stage1.A gets stage0.A's value (declaration-order dependent)",
-               construct=short(u, 100) + " <- absolute spelling absent")
+               "the relative spelling is registered only for the reference that owns it (own stage first, decided before the loop)" if ok else
+               "the relative spelling, which carries no stage, is registered for a reference without deciding whether the spelling belongs to "
+               "it: with references [stage0.A:ref, stage1.A:ref] in a stage-1 component 'A:ref' gets the value of whichever reference is "
+               "declared first (or, when every reference registers it, of the first one) - the result depends on the declaration order",
+               construct=short(u, 100) + " <- this reference owns the relative spelling")
+    # every occurrence in either spelling: a reference that was found under its absolute spelling must still be able to register the
+    # relative one - the relative registration may not be confined to the 'absolute spelling absent' side
+    absent = [(n, match.other(l)) for n, l in abs_tests]
+    for u in rel_uses:
+        nodes = [n for n in cfg.nodes if n.ast is not None and n.kind in ("stmt", "test")
+                 and (n.ast is u or any(c is u for c in own_calls(n.ast)))]
+        excl = bool(absent) and all(match.only_via_edges(cfg, n, absent) for n in nodes)
+        ctx.ob("C10.R4-one-spelling-per-reference", u, not excl,
+               "the relative spelling is substituted also when the absolute one occurs in the same string" if not excl else
+               "the relative spelling is registered only when the absolute spelling is absent: in 'stage1.A:ref A:ref' (one reference, both "
+               "spellings) the relative occurrence is left in the text", construct=short(u, 100) + " <- not only when the absolute spelling is absent")
 
     check_value_afresh(ctx, g, fn)
 
